@@ -13,6 +13,8 @@ CONSTANTS
   Quota = 2
   Claim = TRUE
   CreateRb = TRUE
+  Node2 = {"a2"}
+  ClaimLocal = FALSE
   Emit = FALSE
 INIT Init
 NEXT Next
